@@ -194,24 +194,31 @@ func jadd(a, b jac) jac {
 	return jac{x3, y3, z3}
 }
 
-// Mul returns k·a for any integer k (reduced mod n first; negative k allowed).
+// Mul returns k·a for any integer k (reduced mod n first; negative k allowed).  Fixed 4-bit windows,
+// most significant first: acc = 16·acc + digit·a.  Checked against MulSlow in the package tests.
 func Mul(k *big.Int, a Point) Point {
 	kk := new(big.Int).Mod(k, N)
 	if a.Inf || kk.Sign() == 0 {
 		return Infinity
 	}
+	var tab [16]jac // tab[d] = d·a
+	tab[0] = toJac(Infinity)
+	tab[1] = toJac(a)
+	for d := 2; d < 16; d++ {
+		tab[d] = jadd(tab[d-1], tab[1])
+	}
 	acc := toJac(Infinity)
-	base := toJac(a)
-	for i := kk.BitLen() - 1; i >= 0; i-- {
-		acc = jdouble(acc)
-		if kk.Bit(i) == 1 {
-			acc = jadd(acc, base)
+	for i := (kk.BitLen()+3)/4 - 1; i >= 0; i-- {
+		acc = jdouble(jdouble(jdouble(jdouble(acc))))
+		d := kk.Bit(4*i) | kk.Bit(4*i+1)<<1 | kk.Bit(4*i+2)<<2 | kk.Bit(4*i+3)<<3
+		if d != 0 {
+			acc = jadd(acc, tab[d])
 		}
 	}
 	return acc.affine()
 }
 
-// MulSlow is double-and-add over the affine law only (used to check Mul).
+// MulSlow is double-and-add over the affine law only (used to check Mul and BaseMul).
 func MulSlow(k *big.Int, a Point) Point {
 	kk := new(big.Int).Mod(k, N)
 	acc := Infinity
@@ -224,25 +231,30 @@ func MulSlow(k *big.Int, a Point) Point {
 	return acc
 }
 
-var gTable []jac // 2^i · G
+var gTable [][16]jac // gTable[j][d] = d·16^j·G (affine, z = 1)
 
-// BaseMul returns k·G.
+// BaseMul returns k·G: the sum over the 64 nibbles of k of table entries.
 func BaseMul(k *big.Int) Point {
 	if gTable == nil {
-		t := make([]jac, 256)
-		cur := toJac(G)
-		for i := range t {
-			// store normalised so that later additions are cheap and independent
-			t[i] = toJac(cur.affine())
-			cur = jdouble(cur)
+		t := make([][16]jac, 64)
+		base := G
+		for j := range t {
+			t[j][0] = toJac(Infinity)
+			cur := base
+			for d := 1; d < 16; d++ {
+				t[j][d] = toJac(cur)
+				cur = Add(cur, base)
+			}
+			base = cur // 16·base
 		}
 		gTable = t
 	}
 	kk := new(big.Int).Mod(k, N)
 	acc := toJac(Infinity)
-	for i := 0; i < kk.BitLen(); i++ {
-		if kk.Bit(i) == 1 {
-			acc = jadd(acc, gTable[i])
+	for j := 0; 4*j < kk.BitLen(); j++ {
+		d := kk.Bit(4*j) | kk.Bit(4*j+1)<<1 | kk.Bit(4*j+2)<<2 | kk.Bit(4*j+3)<<3
+		if d != 0 {
+			acc = jadd(acc, gTable[j][d])
 		}
 	}
 	return acc.affine()
